@@ -160,8 +160,20 @@ def main():
     def deref(e, x):
         return e.read_path(x.frame, x.local, list(x.proj)) if isinstance(x, Ref) else x
 
+    def elem_index(v):
+        """index of a numlist element (identified by its payload symbol), or None"""
+        if isinstance(v, tuple) and len(v) == 3 and v[0] == "enum" and v[2] and is_sym(v[2][0]):
+            mm = re.match(r"^le\d_(\d)$", str(v[2][0]))
+            if mm:
+                return int(mm.group(1))
+        return None
+
     def m_eq(e, m, a):
         l, r = deref(e, a[0]), deref(e, a[1])
+        j = elem_index(l) if elem_index(l) is not None else elem_index(r)
+        if j is not None:
+            cur["node"].events.append(("elem_eq", j, r if elem_index(l) is not None else l))
+            return z3.Bool("elem_eq_%d" % j)
         cur["node"].events.append(("op", "eq"))
         cur["eq_args"] = (l, r)
         return cur["eq"]
@@ -237,6 +249,8 @@ def main():
 
     def m_mem_discriminant(e, m, a):
         v = deref(e, a[0])
+        if not (isinstance(v, tuple) and v[0] == "enum" and v[1] in e.discriminants):
+            raise Unsupported("mem::discriminant of %r" % (str(v)[:60],))
         return ("disc", e.discriminants[v[1]])
 
     def m_disc_cmp(e, m, a):
@@ -287,6 +301,44 @@ def main():
             return ("Some", Ref({0: ("abs_val", "found")}, 0, ()))
         return ("None",)
 
+    def m_list_contains(e, m, a):
+        """<[Value]>::contains(needle): some element equals the needle (per-element outcomes for typed elements)"""
+        x, y = deref(e, a[0]), deref(e, a[1])
+        items = x[1] if isinstance(x, tuple) and x[0] == "vecv" else None
+        if items and all(elem_index(it) is not None for it in items):
+            out = []
+            for it in items:
+                cur["node"].events.append(("elem_eq", elem_index(it), y))
+                out.append(z3.Bool("elem_eq_%d" % elem_index(it)))
+            cur["node"].events.append(("list_contains", x, y))
+            return z3.Or(*out)
+        cur["node"].events.append(("list_contains", x, y))
+        return z3.Bool("list_contains_%d" % len(cur["node"].events))
+
+    def m_slice_iter(e, m, a):
+        x = deref(e, a[0])
+        if not (isinstance(x, tuple) and x[0] == "vecv"):
+            raise Unsupported("iteration over %r" % (str(x)[:60],))
+        return ["slice_iter", list(x[1]), 0]
+
+    def m_iter_quantifier(e, m, a):
+        it = deref(e, a[0])
+        cty = re.search(r"(\{closure@[^}]*\})", m.group(0)).group(1)
+        f = e.closure_fn(cty)
+        want = m.group(1) == "any"
+        while it[2] < len(it[1]):
+            it[2] += 1
+            r = e.call_fn(f, [Ref({0: a[1]}, 0, ()), Ref({0: it[1][it[2] - 1]}, 0, ())])
+            if e.decide(r) == want:
+                return want
+        return not want
+
+    def m_discriminant(e, m, a):
+        v = deref(e, a[0])
+        if isinstance(v, tuple) and v[0] == "enum":
+            return ("discr", v[1])
+        raise Unsupported("mem::discriminant of %r" % (str(v)[:60],))
+
     def m_sym_bool(tag):
         def f(e, m, a):
             x, y = deref(e, a[0]), deref(e, a[1])
@@ -313,6 +365,18 @@ def main():
             it[2] += 1
             return ("Some", Ref({0: it[1][it[2] - 1]}, 0, ()))
         return ("None",)
+
+    def m_keys_any(e, m, a):
+        it = deref(e, a[0])
+        cty = re.search(r"(\{closure@[^}]*\})", m.group(0)).group(1)
+        f = e.closure_fn(cty)
+        want = m.group(1) == "any"
+        while it[2] < len(it[1]):
+            it[2] += 1
+            r = e.call_fn(f, [Ref({0: a[1]}, 0, ()), Ref({0: it[1][it[2] - 1]}, 0, ())])
+            if e.decide(r) == want:
+                return want
+        return not want
 
     def m_key_to_string(e, m, a):
         return ("string", key_text(deref(e, a[0])))
@@ -351,6 +415,7 @@ def main():
         (r"^HashMap::<Key, Value>::keys$", m_hm_keys),
         (r"^<std::collections::hash_map::Keys<'_, Key, Value> as IntoIterator>::into_iter$", lambda e, m, a: a[0]),
         (r"^<std::collections::hash_map::Keys<'_, Key, Value> as Iterator>::next$", m_keys_next),
+        (r"^<std::collections::hash_map::Keys<'_, Key, Value> as Iterator>::(any|all)::<.*>$", m_keys_any),
         (r"^<Key as ToString>::to_string$", m_key_to_string),
         (r"^<std::string::String as PartialEq>::eq$", m_string_eq),
         (r"^HashMap::<Key, Value>::get::<Key>$", m_hm_get),
@@ -358,7 +423,9 @@ def main():
         (r"^<str as ToOwned>::to_owned$", lambda e, m, a: ("string", a[0][1].decode() if isinstance(a[0][1], bytes) else a[0][1])),
         (r"^<Value as (?:std::convert::)?Into<Box<Value>>>::into$", lambda e, m, a: ("box", a[0])),
         (r"^HashMap::<Key, Value>::contains_key::<Key>$", m_sym_bool("contains_key")),
-        (r"^core::slice::<impl \[Value\]>::contains$", m_sym_bool("list_contains")),
+        (r"^core::slice::<impl \[Value\]>::contains$", m_list_contains),
+        (r"^core::slice::<impl \[Value\]>::iter$", m_slice_iter),
+        (r"^<std::slice::Iter<'_, Value> as Iterator>::(any|all)::<.*>$", m_iter_quantifier),
         (r"^core::str::<impl str>::contains::<&(?:str|std::string::String)>$", m_sym_bool("str_contains")),
         (r"^core::str::<impl str>::len$", lambda e, m, a: z3.Int("strlen")),
         (r"^std::string::String::len$", lambda e, m, a: z3.Int("strlen")),
@@ -433,9 +500,14 @@ def main():
             "int": ("enum", "Result::Ok", [("enum", "Value::Int", [pay_i])]),
             "uint": ("enum", "Result::Ok", [("enum", "Value::UInt", [pay_i])]),
             "null": ("enum", "Result::Ok", [("enum", "Value::Null", [])]),
+            # a double with an arbitrary IEEE-754 payload (unary minus scenarios)
+            "float": ("enum", "Result::Ok", [("enum", "Value::Float", [z3.FP("f%d" % k, z3.Float64())])]),
             # heap-backed kinds, used by the index / membership scenarios: a list of two abstract
             # elements, an abstract string, an abstract map
             "list": ("enum", "Result::Ok", [("enum", "Value::List", [("arc", ("vecv", [("abs_val", "l%d_0" % k), ("abs_val", "l%d_1" % k)]))])]),
+            # a list of two numbers of different kinds with symbolic payloads (membership scenarios): whether an element
+            # equals the needle is a free boolean per element (numeric equality across kinds is decided under C09)
+            "numlist": ("enum", "Result::Ok", [("enum", "Value::List", [("arc", ("vecv", [("enum", "Value::UInt", [z3.Int("le%d_0" % k)]), ("enum", "Value::Int", [z3.Int("le%d_1" % k)])]))])]),
             "string": ("enum", "Result::Ok", [("enum", "Value::String", [("arc", ("abs_string", "s%d" % k))])]),
             "map": ("enum", "Result::Ok", [("enum", "Value::Map", [[("arc", ("abs_map", "m%d" % k))]])]),
         }
@@ -483,6 +555,8 @@ def main():
                 else:
                     if v[1] == "Value::Int":
                         want = ("neg", v[2][0])
+                    elif v[1] == "Value::Float":
+                        want = ("negf", v[2][0])
                     else:
                         want = ("err_any",)
         else:
@@ -575,6 +649,11 @@ def main():
                 ok = z3.And(i != -2 ** 63, v[2][0] == -i) if v[1] == "Value::Int" else False
             else:
                 ok = i == -2 ** 63
+        elif want[0] == "negf":
+            # IEEE-754 negation: the sign bit flips, also for zeros, infinities and NaN payload-free z3 NaN (structural equality)
+            ok = False
+            if res[1] == "Result::Ok" and res[2][0][1] == "Value::Float" and is_sym(res[2][0][2][0]) and z3.is_fp(res[2][0][2][0]):
+                ok = not e.check(res[2][0][2][0] != z3.fpNeg(want[1]))
         elif want[0] == "err_any":
             ok = res[1] == "Result::Err"
         if ok is False:
@@ -620,7 +699,7 @@ def main():
             order = ["ADD", "SUBSTRACT", "MULTIPLY", "DIVIDE", "MODULO", "EQUALS", "NOT_EQUALS", "LESS", "LESS_EQUALS", "GREATER",
                      "GREATER_EQUALS", "LOGICAL_OR", "LOGICAL_AND", "LOGICAL_NOT", "NEGATE", "NOT_STRICTLY_FALSE", "CONDITIONAL"]
             kc = {"err": 0, "bool": 1, "int": 2, "uint": 3, "null": 4}
-            if not e.check():
+            if not e.check() or any(x not in kc for x in ks):
                 return None
             mdl = e.solver.model()
             iv = [mdl.eval(x, model_completion=True).as_long() for x in (i0, i1, i2)]
@@ -716,6 +795,12 @@ def main():
                     if lk == "string" and rk == "string":
                         sc = [x for x in aux if x[0] == "str_contains"]
                         ok = len(sc) == 1 and res[1] == "Result::Ok" and res[2][0][1] == "Value::Bool"
+                    elif rk == "numlist":
+                        # `x in l` holds iff some element of l equals x, whatever the kinds involved
+                        want_b = z3.Or(z3.Bool("elem_eq_0"), z3.Bool("elem_eq_1"))
+                        ee = [x for x in node.events if x[0] == "elem_eq"]
+                        ok = res[1] == "Result::Ok" and res[2][0][1] == "Value::Bool" and all(surely(same(x[2], a)) for x in ee) \
+                            and not e.check((res[2][0][2][0] if is_sym(res[2][0][2][0]) else z3.BoolVal(res[2][0][2][0])) != want_b)
                     elif rk == "list":
                         lc = [x for x in aux if x[0] == "list_contains"]
                         ok = len(lc) == 1 and surely(same(lc[0][2], a)) and res[1] == "Result::Ok" and res[2][0][1] == "Value::Bool"
@@ -753,10 +838,12 @@ def main():
 
     SELECT_MAPS = [[], ["field"], ["other"], ["field", "other"], ["other", "field"], [1], [True, "other"], [1, "field"]]
 
-    def run_select_scenario(test, lk, mapcfg=None):
-        """field selection `x.field` and presence test `has(x.field)` on one node"""
+    def run_select_scenario(test, lk, mapcfg=None, opshape="call"):
+        """field selection `x.field` and presence test `has(x.field)` on one node; the operand is a call or itself a
+        field selection / presence test (a chain `a.b.field`): the node may evaluate its operand only - never the
+        operand's own operand"""
         stats["scenarios"] += 1
-        desc = {"node": "select", "operator": "select", "opcode": "SELECT", "operands": [lk], "test": test, "map_keys": mapcfg}
+        desc = {"node": "select", "operator": "select", "opcode": "SELECT", "operands": [lk], "test": test, "map_keys": mapcfg, "operand_shape": opshape}
 
         def mk_key(k):
             if isinstance(k, bool):
@@ -770,14 +857,16 @@ def main():
         else:
             left = R[0][lk]
         node = Node("select", [left, R[1]["null"], R[2]["null"]])
-        expr = [7, ("enum", "Expr::Select", [[[[Ref({0: operand_expr(0, "call")}, 0, ())]], ("string", "field"), test]])]
+        expr = [7, ("enum", "Expr::Select", [[[[Ref({0: operand_expr(0, opshape)}, 0, ())]], ("string", "field"), test]])]
         pseudo = {0: expr}
         eng = new_engine()
         eng.discriminants.update({"Key::Int": 0, "Key::Uint": 1, "Key::Bool": 2, "Key::String": 3})
+        # the operand's own operand (`w0` in `w0.field.field`): evaluating it here is an evaluation outside this node
+        node.results_by_handle = {"inner0": ("enum", "Result::Ok", [("enum", "Value::Map", [[("arc", ("hashmap", [(mk_key("field"), ("abs_val", "grandchild_entry"))]))]])])}
 
         def entry(e):
             cur.clear()
-            cur.update({"node": node, "eq": eq_sym, "cmp_some": cmp_some, "ord": ord_sym, "ident_owner": {}})
+            cur.update({"node": node, "eq": eq_sym, "cmp_some": cmp_some, "ord": ord_sym, "ident_owner": {"w0": "inner0"}})
             node.events = []
             return e.call_fn(fn, [Ref(pseudo, 0, ()), Opaque("ctx")])
 
@@ -897,18 +986,39 @@ def main():
         stats["solver_s"] += eng.stats["solver_s"]
         stats["functions"] |= eng.stats["functions"]
 
+    undecided = []
+
+    def guarded(f):
+        # a scenario that meets an unmodelled call is undecided (never a pass); the other scenarios are still decided
+        def g(*a, **k):
+            try:
+                return f(*a, **k)
+            except Unsupported as u:
+                undecided.append("%s%r: %s" % (f.__name__, a, str(u)[:160]))
+                if os.environ.get("MIRSYM_TRACE"):
+                    import traceback
+                    traceback.print_exc()
+        return g
+    run_scenario, run_access_scenario, run_select_scenario, run_call_scenario = (guarded(run_scenario), guarded(run_access_scenario),
+                                                                                 guarded(run_select_scenario), guarded(run_call_scenario))
     try:
         akinds = ["err", "int", "uint", "bool", "null", "string", "list", "map"]
         for opc in ("INDEX", "IN"):
             for lk in akinds:
                 for rk in akinds:
                     run_access_scenario(opc, lk, rk)
+        for lk in ("int", "uint"):
+            run_access_scenario("IN", lk, "numlist")
         if True:
             for test in (False, True):
                 for lk in ("err", "int", "null", "string", "list"):
                     run_select_scenario(test, lk)
                 for cfg in SELECT_MAPS:
                     run_select_scenario(test, "map", cfg)
+                for lk in ("err", "null"):
+                    run_select_scenario(test, lk, None, "select")
+                for cfg in SELECT_MAPS[:3]:
+                    run_select_scenario(test, "map", cfg, "select")
         for nargs in range(0, 4):
             for has_target in (False, True):
                 for declared in (True, False):
@@ -933,13 +1043,17 @@ def main():
         for opc in unary:
             for k in kinds:
                 run_scenario(opc, [k])
+        run_scenario("NEGATE", ["float"])
         for ks in itertools.product(kinds, ["err", "int"], ["err", "bool"]):
             run_scenario("CONDITIONAL", list(ks))
     except Unsupported as u:
         status = 2
         if os.environ.get("MIRSYM_TRACE"): import traceback; traceback.print_exc()
         print("INCONCLUSIVE: unsupported: %s" % u)
-    if failures:  # a counterexample stands even if a later scenario met an unmodelled call (it is replayed natively anyway)
+    if undecided:
+        status = 2
+        print("INCONCLUSIVE: %d scenarios undecided, e.g. unsupported: %s" % (len(undecided), undecided[0][:300]))
+    if failures:  # a counterexample stands even if another scenario met an unmodelled call (it is replayed natively anyway)
         status = 1
     out = {"functions_encoded": sorted(stats["functions"]), "scenarios": stats["scenarios"], "paths": stats["paths"], "paths_proved": stats["proved"],
            "queries": stats["queries"], "assert_obligations": stats["assert_obligations"], "solver_s": round(stats["solver_s"], 2),
